@@ -39,7 +39,9 @@ RULE = (
     "networks = micro-universes U(2,3,3), U(3,3,2), U(4,2,2) (+U(4,3,2) "
     "thorough) + feature family; ALL binary trees; every subset of <=2 "
     "(quick) / <=3 (thorough) indices each either sliced or projected; "
-    "orders None/dfs/every ranking (n<=4); distinct_nontrivial = distinct "
+    "orders None/dfs/every ranking (n<=4); for <=1 removed index also trees "
+    "that went through project+restore, slice+restore or an annealing "
+    "prelude (how a tree was reached must not matter); distinct_nontrivial = distinct "
     "(network, tree, sliced-set) with at least one index of size>1 involved"
 )
 ASSUMPTIONS = [
@@ -107,11 +109,32 @@ def subsets(inds, k):
                 yield tuple(zip(combo, modes))
 
 
-def check_case(inputs, output, sd, nested, sl, tier, seed, res, do_exec):
+PRELUDES = ("none", "project-restore", "slice-restore", "anneal")
+
+
+def apply_prelude(tree, prelude, inds, sd):
+    """how the tree was reached must not matter for what it reports"""
+    if prelude == "project-restore" and inds:
+        tree.remove_ind_(inds[0], project=0)
+        tree.restore_ind_(inds[0])
+    elif prelude == "slice-restore" and inds:
+        tree.remove_ind_(inds[-1])
+        if len(inds) > 1:
+            tree.remove_ind_(inds[0], project=sd[inds[0]] - 1)
+            tree.restore_ind_(inds[0])
+        tree.restore_ind_(inds[-1])
+    elif prelude == "anneal":
+        tree.simulated_anneal_(tsteps=2, numiter=2, seed=1)
+
+
+def check_case(inputs, output, sd, nested, sl, tier, seed, res, do_exec,
+               prelude="none"):
     import cotengra as ctg  # noqa: F401
 
     n = len(inputs)
     tree = nets.build_tree(inputs, output, sd, nested)
+    if prelude != "none":
+        apply_prelude(tree, prelude, U.used_inds(inputs), sd)
     sliced = [ix for ix, m in sl if m == "s"]
     projected = [ix for ix, m in sl if m == "p"]
     for ix, m in sl:
@@ -166,7 +189,7 @@ def check_case(inputs, output, sd, nested, sl, tier, seed, res, do_exec):
     if tree.combo_cost(factor=7, combine=max) != cm:
         bad.append(("combo_cost_max",))
     # fresh tree with tracking on from the start must agree (un-sliced only)
-    if not sl:
+    if not sl and prelude == "none":
         t2 = nets.build_tree(inputs, output, sd, nested, track_flops=True,
                              track_write=True, track_size=True)
         if (t2.total_flops(), t2.total_write(), t2.max_size()) != (
@@ -176,8 +199,16 @@ def check_case(inputs, output, sd, nested, sl, tier, seed, res, do_exec):
 
     orders = [None, "dfs"]
     lim = None if n <= 4 else 6
-    for rk in nets.rankings(nested, limit=lim):
-        orders.append(rk)
+    if prelude == "anneal":
+        # the structure may have changed: rank the nodes the tree has now
+        import itertools as _it
+
+        nodes_now = list(tree.children)
+        for perm in _it.islice(_it.permutations(range(len(nodes_now))), 6):
+            orders.append(dict(zip(nodes_now, perm)))
+    else:
+        for rk in nets.rankings(nested, limit=lim):
+            orders.append(rk)
     for o in orders:
         oarg = (lambda node, rk=o: rk[node]) if isinstance(o, dict) else o
         steps, ok = nets.valid_order_of(tree, oarg)
@@ -236,17 +267,26 @@ def work(unit):
             kk = min(k, 1) if len(inds) > 5 else k
         for nested in U.all_trees(range(n)):
             for sl in subsets(inds, kk):
-                case = {"inputs": inp0, "output": out0, "sizes": sd,
-                        "tree": nested, "sliced": sl, "seed": seed}
-                try:
-                    bad = check_case(inp0, out0, sd, nested, sl, tier, seed,
-                                     res, do_exec=(len(sl) <= 1))
-                except Exception as e:
-                    bad = [("exception", repr(e))]
-                res.key((inp0, out0, nested, sl))
-                if bad:
-                    res.violation("cost-mismatch:" + str(bad[0][0]), case,
-                                  bad[:6])
+                preludes = ("none",)
+                if n >= 3 and (name == "F" and len(sl) <= 1 or
+                               name == "U332" and len(sl) == 0):
+                    preludes = PRELUDES
+                for prelude in preludes:
+                    case = {"inputs": inp0, "output": out0, "sizes": sd,
+                            "tree": nested, "sliced": sl, "seed": seed,
+                            "prelude": prelude}
+                    try:
+                        bad = check_case(inp0, out0, sd, nested, sl, tier,
+                                         seed, res, do_exec=(len(sl) <= 1),
+                                         prelude=prelude)
+                    except Exception as e:
+                        bad = [("exception", repr(e))]
+                    res.key((inp0, out0, nested, sl, prelude))
+                    if bad:
+                        res.violation(
+                            "cost-mismatch:" + str(bad[0][0])
+                            + ("" if prelude == "none" else
+                               ":after-" + prelude), case, bad[:6])
         res.sample({"inputs": inp0, "output": out0, "sizes": sd,
                     "sliced_subsets": sum(1 for _ in subsets(inds, kk))},
                    cap=2)
@@ -264,7 +304,8 @@ def replay(case):
     try:
         bad = check_case(inputs, output, dict(case["sizes"]),
                          tup(case["tree"]), sl, "quick", case.get("seed", 0),
-                         res, do_exec=True)
+                         res, do_exec=True,
+                         prelude=case.get("prelude", "none"))
     except Exception as e:
         bad = [("exception", repr(e))]
     if bad:
